@@ -33,8 +33,8 @@ RULE = (
     "(world digest, scenario digest, choice-tape digest)."
 )
 TIERS = {
-    "quick": {"runs": 160, "budget_s": 45, "min_runs": 20, "run_timeout_s": 240},
-    "thorough": {"runs": 12000, "budget_s": 800, "min_runs": 400, "run_timeout_s": 600},
+    "quick": {"runs": 160, "budget_s": 45, "min_runs": 4, "run_timeout_s": 240},
+    "thorough": {"runs": 12000, "budget_s": 800, "min_runs": 40, "run_timeout_s": 600},
 }
 COMPONENTS_REAL = [
     "sqlfluff Linter.lint_paths, get_runner, ParallelRunner.run/_apply/iter_partials, DelayedException, FluffConfig pickling",
